@@ -144,6 +144,8 @@ class Run:
         detail: Optional[dict] = None,
     ) -> None:
         key = f"{rule}|{symbol}|{norm(construct)}"
+        if any(f.key == key for f in self.findings):
+            return  # the same construct refuted again on another path / alternative
         line = getattr(node, "lineno", 0) if node is not None else (
             getattr(construct, "lineno", 0) if isinstance(construct, ast.AST) else 0
         )
